@@ -1,7 +1,7 @@
 (* C09 - legacy neighbourhood queries return exactly the cells/agents in range.
    ONLY statements closed by `exact`, with Print Assumptions beneath each. *)
 From Coq Require Import ZArith List Bool.
-From Mesa Require Import Common.ListX Common.Reach Generated.Tables Model.LegacyNbhd Proofs.LegacyNbhdProofs
+From Mesa Require Import Common.ListX Common.Reach Generated.Tables Model.LegacyNbhd Proofs.LegacyNbhdProofs Proofs.LegacyNbhdBridge
   Model.LegacyHexNet Proofs.LegacyHexNetProofs.
 Import ListNotations.
 Open Scope Z_scope.
@@ -43,6 +43,28 @@ Theorem C09_agents_exact : forall cs cells a,
   In a (agents_in cs cells) <-> exists p, In p cells /\ In a (cell_agents cs p).
 Proof. exact agents_in_spec. Qed.
 Print Assumptions C09_agents_exact.
+
+(* ---- code-level tie (T1): the bounds test, the interior guard and both offset loop nests of
+   _Grid.get_neighborhood are TRANSLATED from the current source (harness/pyexpr.py) into gen_out_of_bounds,
+   gen_fast_guard, gen_nb_fast, gen_nb_slow; the remaining statements of the function are checked verbatim
+   (gen_nbhd_skeleton_ok).  The model's cache-miss body is the translated code ... *)
+Theorem C09_source_skeleton : gen_nbhd_skeleton_ok = true.
+Proof. vm_compute. reflexivity. Qed.
+Print Assumptions C09_source_skeleton.
+
+Theorem C09_source_code_is_model : forall g q,
+  compute_nbhd g q = gen_compute_nbhd (g_w g) (g_h g) (g_torus g) (q_moore q) (q_ic q) (q_pos q) (q_r q).
+Proof. exact compute_bridge. Qed.
+Print Assumptions C09_source_code_is_model.
+
+(* ... so the metric-ball theorem holds of the translated source code itself *)
+Theorem C09_cells_exact_of_source : forall w h torus moore ic pos r c,
+  0 < w -> 0 < h -> 0 <= r ->
+  (In c (gen_compute_nbhd w h torus moore ic pos r) <->
+   gen_out_of_bounds w h c = false /\
+   dist {| g_w := w; g_h := h; g_torus := torus |} moore c pos <= r /\ (c <> pos \/ ic = true)).
+Proof. exact cells_exact_of_source. Qed.
+Print Assumptions C09_cells_exact_of_source.
 
 (* ---- legacy hex grids ---- *)
 (* The two adjacency tables extracted from the CURRENT source list, for every cell of the infinite
